@@ -195,10 +195,9 @@ def rule_c(ctx):
     c06.rule_d(ctx)
 
 
-def thorough_extra(obligations, repo):
-    from ..witness import run_witnesses
-    return run_witnesses("C16", obligations, repo)
 
+
+WITNESS = ['c16']  # doctest filters in /verif/witness (thorough tier)
 
 RULES = [
     ("C16.a", "model task = init().await once, then the receive loop on the initialised model", rule_a),
